@@ -16,7 +16,8 @@ RULE = ("Generated from the meaning outward: (type, network, station octets[, IP
         "out-of-range and garbage input raises ValueError/TypeError/OSError. Non-trivial: any spelling other than a bare int; "
         "distinct by (spelling, meaning)."
         " Also: octet strings with 0xBA 0xBF..0xD0 at every offset and length (port look-alikes); mask lengths above 32 must be refused."
-        " Near-miss spellings (hex-digit neighbours, pairs); any-address and negative-host tuples.")
+        " Near-miss spellings (hex-digit neighbours, pairs); any-address and negative-host tuples."
+        " The pools repeated with router hints attached (default settings): equal implies equal hash and the same dict slot. One reduced copy of a generated shard runs with the library's debug tracing switched on (label tracing-on).")
 ASSUMPTIONS = [
     "route suffixes (@...) and settings.route_aware are outside the statement's list of notations: their meaning is not judged; "
     "addresses carrying a router hint are only held to 'equal implies equal hash' under the default settings",
